@@ -190,8 +190,11 @@ def add_entities(rng, form):
 def add_missing_header(rng, form):
     which = rng.choice(["survey", "choices"])
     if which == "survey" or not form.get("choices"):
+        both = rng.random() < 0.5
         for r in form["survey"]:
             r.pop("type", None)
+            if both:
+                r.pop("name", None)
     else:
         for r in form["choices"]:
             r.pop("name", None)
